@@ -201,8 +201,7 @@ def rule_append_law(ctx):
                       "write() writes at the current end", "write() writes at %s" % show(o.call_args(bi)[1]))
 
 
-def rule_slot_siblings(ctx):
-    R = "C16/slot-siblings"
+def rule_slot_siblings(ctx, R="C16/slot-siblings"):
     want_elem = None
     forms = {}
     # set_value_at
